@@ -20,8 +20,10 @@ FIELDS = {
 
 def reps(lo, hi):
     vals = {0, 1, lo - 1, lo, lo + 1}
+    # 2^32 + (an in-range value) and 2^63 + ...: a value that is far out of range but whose low 32 bits are in range, in case the
+    # value passes through a narrower type on its way to the comparison
     if hi is not None:
-        vals |= {hi - 1, hi, hi + 1, (lo + hi) // 2, 1 << 40}
+        vals |= {hi - 1, hi, hi + 1, (lo + hi) // 2, 1 << 40, (1 << 32) + lo, (1 << 32) + (lo + hi) // 2, (1 << 63) + hi}
     else:
         vals |= {lo + 1000, 1 << 40}
     return sorted(v for v in vals if v >= 0)
@@ -48,7 +50,10 @@ def _run(prog, chk):
     chk.rule("C15.table", "consolidation decision table per field: discard iff absent/zero/out of range; update direction", floor=150)
     chk.rule("C15.wiring", "every field's consolidation is applied to the consolidated configuration for every pushed configuration", floor=6)
 
-    helpers = {"KSI_Integer_getUInt64", "KSI_Integer_compare", "isMaxLevelValid", "isAggrPeriodValid", "isMaxRequestsValid", "isCalendarTimeValid"}
+    # every static helper of net_ha.c is evaluated from its own CFG (a range test may be delegated to a shared helper; a narrower
+    # parameter type on the way then shows up as a changed decision for the representatives above 2^32)
+    helpers = {"KSI_Integer_getUInt64", "KSI_Integer_compare"} | {f.name for f in prog.all_functions() if f.unit == "net_ha.c" and f.static and
+                                                                  (f.name.startswith("is") or f.ret in ("bool", "_Bool"))}
     for suffix, (stem, lo, hi, direction) in FIELDS.items():
         fn = prog.fn("KSI_Config_consolidate" + suffix, "net_ha.c")
         hap, rsp, upd = [p["n"] for p in fn.params]
